@@ -1,8 +1,8 @@
 CONSTANTS
-  Groups = {1, 2, 3}
-  Vols = {0, 1, 5, 12}
-  MaxIntervals = 4
-  Targets = {6}
+  Groups = {1, 2}
+  Vols = {0, 1, 3, 6, 12}
+  MaxIntervals = 3
+  Targets = {5}
   Ttl = 8
   Depth = 3
   OnlyEnds = FALSE
